@@ -90,7 +90,10 @@ class PathEnd(Exception):
     """Path ends silently (infeasible, or inductive loop step finished)."""
 
 
+ANY_ERROR_CLASSES = ('ValueError', 'OSError', 'IOError', 'RuntimeError', 'KeyError', 'IndexError', 'LookupError', 'TypeError',
+                     'ArithmeticError', 'AttributeError', 'AssertionError')
 EXC_PARENTS = {
+    'AnyError': 'Exception', 'TimeoutError': 'OSError',
     'Exception': 'BaseException', 'ArithmeticError': 'Exception', 'ZeroDivisionError': 'ArithmeticError',
     'OverflowError': 'ArithmeticError', 'LookupError': 'Exception', 'IndexError': 'LookupError',
     'KeyError': 'LookupError', 'ValueError': 'Exception', 'TypeError': 'Exception',
@@ -2238,6 +2241,19 @@ class Engine:
         elts = t.elts if isinstance(t, ast.Tuple) else [t]
         for x in elts:
             names.append(ast.unparse(x).split('.')[-1])
+        if e.etype == 'AnyError':
+            # an injected failure of unknown class (contracts with failure injection): an `except Exception` / bare handler
+            # catches it; a handler for one of the common specific classes catches it on one path and not on another
+            for n in names:
+                if n in ('Exception', 'BaseException'):
+                    return True
+                if n in ANY_ERROR_CLASSES:
+                    known = e.__dict__.setdefault('any_classes', {})
+                    if n not in known:
+                        known[n] = bool(self.branch(fresh(BOOL, 'the_failure_is_a_' + n).z))
+                    if known[n]:
+                        return True
+            return False
         return any(exc_isa(e.etype, n, self.extra_exc) for n in names)
 
     def s_With(self, node, fr):
